@@ -16,22 +16,22 @@ def register(claim):
           "Decides necessary conditions of faithful-or-rejected parsing for every domain text at once: on every acyclic path through each node "
           "handler the node is consumed or rejected; a stripped head is pinned or kept; (not ..) polarity and (in)equality routing; one arm per "
           "section storing into the matching field; length-guarded positional operands; accepted operators have evaluator entries; trailing typed-list "
-          "groups are flushed. It does not decide that the stored formula equals the written one.",
+          "groups are flushed; operator-to-operator tables are the identity, complement or mirror (complement under not). It does not decide that the stored formula equals the written one.",
           TRUST + "Findings recorded as known (repeated arguments collapse in name-keyed signatures) are listed in known_findings.json.",
           "DESIGN.md 4/C01")
     claim("C02",
           "class valuation of isinstance dispatch on the flattened evaluator / translator (statements executed per operand class), abstract truth tables, finite valuation of the literal evaluator, valuation-aware def-use provenance",
           "Decides the structural clauses of 'applicable iff precondition true': operator tables, literal truth value over (polarity, membership), "
           "every operand class translated-and-attached or rejected, fold identity and per-arm folding, (in)equality semantics, subtype range of "
-          "quantifiers, pass-through of Operator.is_applicable. Truth of whole formulas in whole states is not decided. On the current tree the check "
+          "quantifiers, pass-through of Operator.is_applicable, argument positions of grounded fluent leaves. Truth of whole formulas in whole states is not decided. On the current tree the check "
           "reports the known defect family that nested or / forall preconditions are ignored.",
-          TRUST + "Seven known findings (KF2-KF4) are reported as KNOWN-FINDING.",
+          TRUST + "Six known findings (KF2-KF4) are reported as KNOWN-FINDING.",
           "DESIGN.md 4/C02")
     claim("C03",
           "finite guard valuation over the CFG of Operator.apply, def-use provenance of state arguments, CFG ordering (delete-then-add), symbolic execution of assignment helpers, effect analysis (escape)",
           "Decides for all states and domains: an effect group fires iff its antecedents hold in the pre-state parameter; effects are applied to the "
           "copy that is returned; removals cannot follow insertions and are polarity-filtered; assign/increase/decrease compute v/old+v/old-v; numeric "
-          "right-hand sides read the pre-state; the universal pass dominates the return and ranges by subtype; no operator-owned fluent object "
+          "right-hand sides read the pre-state; the universal pass dominates the return and ranges by subtype (no conforming object skipped); every conditional group grounds its discrete and its numeric effects; classes kept in sets compare on condition and consequents; no operator-owned fluent object "
           "escapes into the successor. The frame condition and full successor equality are not decided.",
           TRUST, "DESIGN.md 4/C03")
     claim("C04",
@@ -44,7 +44,7 @@ def register(claim):
           "must-pass-through (dominators) on validator CFGs, no-silent-drop path enumeration, provenance of stored values, sibling idiom check",
           "Decides: every ground atom / fluent returned by the problem parser is dominated by an arity check, a per-argument subtype check and an "
           "object lookup (and a function-name check); unknown components and a foreign domain name raise; sections are routed to their fields; the "
-          "trailing untyped object group is kept; values are float(third item) under the fluent's name. That stored content equals the text is not decided.",
+          "trailing untyped object group is kept and typed by the constant 'object'; values are float(third item) under the fluent's name. That stored content equals the text is not decided.",
           TRUST + "assert-based checks vanish under python -O (noted in evidence).", "DESIGN.md 4/C05")
     claim("C06",
           "type-inference-driven lint (no ==/!= on PDDLType), registration / identity dataflow in parse_types, finite valuation of the ancestor walk",
@@ -58,17 +58,17 @@ def register(claim):
           "writes below a field that holds a constructor argument, below a parameter of a public entry point, or into a module-level object; no "
           "owner-mutated object is stored into a state handed to it; State.copy is deep down to the fact / fluent objects. With no library write to "
           "shared objects the thread-interleaving clause follows. Mutation by user code through remaining aliases is not decided.",
-          TRUST + "261 obligations (237 entry points) on the current tree; UNKNOWN-provenance writes are counted (0 today).", "DESIGN.md 4/C07")
+          TRUST + "262 obligations (237 entry points) on the current tree; default arguments that build objects count as shared; UNKNOWN-provenance writes are counted (0 today).", "DESIGN.md 4/C07")
     claim("C08",
           "backward slicing for field coverage, abstract evaluation of string-building code into string shapes (polarity, typed lists, parenthesis balance, value text), keyword sets, provenance (order, options); public printers with helpers inlined",
           "Decides: each domain printer's text depends on every declared field of what it prints; negative literal text is '(not '+positive+')'; "
           "written keywords are reader heads; templates are balanced; signatures are printed in order; print options reach nested prints (known "
-          "finding: they do not). Equality after re-parsing is not decided.",
+          "finding: they do not) and print() emits what __str__ emits; every constant except the placeholder named 'object' is written; integers are printed by an exact integer test. Equality after re-parsing is not decided.",
           TRUST + "Three known findings (KF9).", "DESIGN.md 4/C08")
     claim("C09",
           "backward slicing for field coverage, template keywords / balance, provenance of the (:domain ..) reference",
           "Decides: the problem text depends on every field of Problem named by the property, object / fact / fluent lines on all their parts, "
-          "keywords are parse_problem heads, templates are balanced. Round-trip equality is not decided.",
+          "keywords are parse_problem heads, templates are balanced, every alternative of an object line is '<name> - <type>'. Round-trip equality is not decided.",
           TRUST + "One known finding (position of repeated fluent arguments, KF1).", "DESIGN.md 4/C09")
     claim("C10",
           "keyword-set agreement writer/reader, sibling obligation cross-check, def-use threading in parse_trajectory, no-silent-drop",
@@ -86,14 +86,14 @@ def register(claim):
           "abstract evaluation of operator-table lambdas over a 5-point ordering domain, rational normal forms, def-use provenance for operand order",
           "Decides for every input at once: the arithmetic table computes x<op>y, the comparison table is tolerant for = <= >= and strict for < >, "
           "the tolerance is the configured EPSILON with rel_tol pinned to 0, assign/increase/decrease set v / old+v / old-v, child 0 / child 1 are "
-          "left / right operand at every evaluation, construction and printing site, environment values are converted to numbers. Floating-point "
+          "left / right operand at every evaluation, construction and printing site, environment values are converted to numbers, a fluent the state does not mention reads as the constant 0. Floating-point "
           "results are not decided.",
           TRUST + "Abstract model of math.isclose: |x-y| <= abs_tol when rel_tol = 0.", "DESIGN.md 4/C12")
     claim("C13",
           "table vocabulary check, regex-AST injectivity argument for the symbol naming, guard/use consistency, exact-class dispatch coverage (thin claim)",
           "THIN: equivalence of sympy-simplified text for all valuations is out of reach of a static argument. Decided are necessary conditions only: "
           "emitted operators are + - * /, the fluent->symbol naming deletes no distinguishing characters, an integer printed under a round() guard is "
-          "int(round()), the atom dispatch covers sympy's number classes, sides and operator of (in)equalities are kept.",
+          "int(round()) and the integer test is exact (no tolerance), the elimination algebra holds under every choice of its condition-dependent constants, the atom dispatch covers sympy's number classes, sides and operator of (in)equalities are kept.",
           TRUST + "Four known findings (KF7a-c) are reported on the current tree.", "DESIGN.md 4/C13 and section 8")
     claim("C14",
           "AST symmetry of __eq__ operands, finite valuation of its result, effect-analysis freshness of State.copy, constructor field maps, backward slicing",
@@ -105,37 +105,37 @@ def register(claim):
           "guard-structure analysis of the packing loop, finite valuation of the validator, provenance-labelled interference pairs (thin claim)",
           "THIN: conservation, per-agent order and final-state equality over all plans are not decided. Decided: every slot store after the first is "
           "under the well-definedness test; the validator accepts only with a free slot, applicability in the step's pre-state and no interference "
-          "(six required intersections present); one JointActionCall per step from nop-initialised slots indexed by agent; state threading through "
+          "(six required intersections present, over whole parameter lists and whole effect groups); one JointActionCall per step from nop-initialised slots indexed by agent; state threading through "
           "apply_actions on the non-nop members.",
           TRUST, "DESIGN.md 4/C15 and section 8")
     claim("C16",
           "finite guard valuation of apply_actions, def-use provenance of the accumulated state, loop threading, constructor-argument rule",
           "Decides: member applicability is asked on the original state, effects accumulate on its copy, refusal iff (inapplicable and not allowed), "
           "nop skipped before the schema lookup, the single-member shortcut passes the flag; the multi-agent exporter threads states with one "
-          "triplet per joint action; every applied Operator is built with the problem objects. Permutation independence is not decided.",
+          "triplet per joint action, built by one apply_actions call on the previous state and the whole member list; every applied Operator is built with the problem objects. Permutation independence is not decided.",
           TRUST, "DESIGN.md 4/C16")
     claim("C17",
           "effect analysis (writes to module-level objects), def-use provenance of merge calls (same-named fields), finite valuation of the de-duplication guard",
           "Decides: combining never writes into shared module-level state; each mergeable field of the combined domain / problem is fed from the "
-          "same-named field of every agent file into a fresh object; facts are inserted iff their ground text is absent, goal literals pass a set; "
-          "dummy actions only on request. Order independence for conflicting values is not decided.",
+          "same-named field of every agent file into a fresh object; facts are inserted iff their ground text is absent, goal literals pass a set, the walk over an agent's facts is never left early; "
+          "the exporter writes every constant; dummy actions only on request. Order independence for conflicting values is not decided.",
           TRUST, "DESIGN.md 4/C17")
     claim("C18",
           "container mutate-while-iterate pattern over the CFG (simultaneous substitution), backward slice of visited fields, provenance of rebuilt pairs",
           "Decides: every change_signature builds the renamed signature from a snapshot in the old order with the old types (so overlapping maps "
-          "such as swaps are safe); (in)equality pairs are rebuilt component-wise; Action.change_signature visits every field that mentions "
+          "such as swaps are safe) and no path returns before the rewrite; (in)equality pairs are rebuilt component-wise; Action.change_signature visits every field that mentions "
           "parameters (known finding: conditional / universal effects and nested pairs are not). Behavioural equivalence is not decided.",
           TRUST + "Three known findings (KF8).", "DESIGN.md 4/C18")
     claim("C19",
           "regex-AST analysis of the step pattern, def-use provenance of emitted steps, finite valuation of the status function",
-          "Decides: nothing inside the step capture group can match a line break and the step ends at its line's end; steps are "
+          "Decides: nothing inside the step capture group can match a line break and the step ends at its line's end, the step number is not anchored to the line start, the captured class admits every character of action names; steps are "
           "group(1).lower().strip() in match order; 'ok' only under the plan marker, otherwise an empty list; ENHSP: one lower-cased line per input "
           "line. That real logs contain nothing else matching the pattern is an assumption.",
           TRUST, "DESIGN.md 4/C19")
     claim("C20",
           "def-use provenance of the parameter map and of per-position lookups, finite valuation over 'is a domain constant', loop completeness",
           "Decides: parameter map = zip(signature, call arguments) in order; declared parameter i is bound through the literal's i-th argument; "
-          "constants keep name and own type, parameters take the action's type; effect groups ground all their effects, one group per schema group; "
+          "constants keep name and own type, parameters take the action's type; effect groups ground all their effects (discrete and numeric on every path), one group per schema group; "
           "the precondition translation attaches every operand class (known finding: nested / forall are dropped). Set equality with the substituted "
           "schema is not decided.",
           TRUST + "Five known findings (KF1, KF2, KF4).", "DESIGN.md 4/C20")
